@@ -1,8 +1,83 @@
-/- Driver operations of the Graph model (stub until the model lands). -/
+/-
+  Driver operations of the Graph model (C09).
+
+  op "graph.order":
+    {"op": "graph.order", "root": id,
+     "tys": [{"named": b, "stdlib": b, "leaf": b, "unw": id, "ucls": b, "kids": [[var|null, id], …]}, …]}
+  answers
+    {"wf": bool,                       -- Graph.wf (the hypothesis of the C09 theorems)
+     "fuel": n, "steps": n,            -- fuel given to the loop (Graph.fuelBound when wf), number of pops
+     "nodes": [[ty, unw, var|null, cyclic, isRef], …]   -- the model's static_order
+        | "cycle": true                -- graphlib would raise CycleError
+        | "outOfFuel": true,           -- the loop did not finish
+     "topo": bool,                     -- Graph.checkTopo of that sequence
+     "edges": [[node, [pred, …]], …]}  -- the `graph.add` calls in order
+-/
 import TypelibModel.Drv.Core
+import TypelibModel.Model.Graph
 open Lean
 namespace Typelib.Drv
+open Typelib.Graph
+namespace GraphOps
 
-def handleGraph (_st : St) (_op : String) (_j : Json) : Option (Except String (St × Json)) := none
+def jBool (j : Json) (k : String) : Except String Bool :=
+  match j.getObjVal? k with
+  | .ok (.bool b) => .ok b
+  | _ => .error s!"field {k}: not a bool"
+
+def jVar (j : Json) : Except String (Option Str) :=
+  match j with
+  | .null => .ok none
+  | .str s => .ok (some (S s))
+  | _ => .error s!"not a var: {j}"
+
+def kidOfJson (j : Json) : Except String (Option Str × Nat) :=
+  match j with
+  | .arr #[v, c] => do pure ((← jVar v), (← jNat c))
+  | _ => .error s!"not a member: {j}"
+
+def infoOfJson (j : Json) : Except String TyInfo := do
+  let named ← jBool j "named"
+  let stdlib ← jBool j "stdlib"
+  let leaf ← jBool j "leaf"
+  let ucls ← jBool j "ucls"
+  let unw ← jNat (← j.getObjVal? "unw")
+  let kids ← match j.getObjVal? "kids" with
+    | .ok (.arr a) => a.toList.mapM kidOfJson
+    | _ => .error "kids"
+  pure { named := named, stdlib := stdlib, leaf := leaf, unwrapped := unw, ucls := ucls, children := kids }
+
+def graphOfJson (j : Json) : Except String TyGraph :=
+  match j.getObjVal? "tys" with
+  | .ok (.arr a) => do pure { tys := (← a.toList.mapM infoOfJson) }
+  | _ => .error "tys"
+
+def nodeToJson (n : Node) : Json :=
+  .arr #[jN n.ty, jN n.unwrapped, (match n.var with | some v => .str (U v) | none => .null),
+         .bool n.cyclic, .bool n.isRef]
+
+def addToJson (a : Node × List Node) : Json :=
+  .arr #[nodeToJson a.1, .arr (a.2.map nodeToJson).toArray]
+
+end GraphOps
+open GraphOps
+
+def handleGraph (st : St) (op : String) (j : Json) : Option (Except String (St × Json)) :=
+  match op with
+  | "graph.order" => some do
+    let g ← graphOfJson j
+    let root ← jNat (← j.getObjVal? "root")
+    let ok := wf g
+    let fuel := if ok then fuelBound g else 20000
+    match run g fuel (init g root) with
+    | none => pure (st, Json.mkObj [("wf", .bool ok), ("fuel", jN fuel), ("outOfFuel", .bool true)])
+    | some s =>
+      let common := [("wf", Json.bool ok), ("fuel", jN fuel), ("steps", jN s.adds.length),
+                     ("edges", .arr (s.adds.map addToJson).toArray)]
+      match staticOrder s.adds with
+      | none => pure (st, Json.mkObj (common ++ [("cycle", .bool true)]))
+      | some o => pure (st, Json.mkObj (common ++
+          [("nodes", .arr (o.map nodeToJson).toArray), ("topo", .bool (checkTopo s.adds o))]))
+  | _ => none
 
 end Typelib.Drv
